@@ -2,6 +2,8 @@
     still compiles (and runs) when a proof breaks. *)
 From Coq Require Import ZArith List Bool Lia Zdiv.
 From Copia Require Import Gen.Constants Model.Checksum.
+(* every result below is about functions that are, by Proofs/ChecksumTie.v, the translation of the current source *)
+From Copia Require Import Gen.ChecksumGen Proofs.ChecksumTie.
 Import ListNotations.
 Open Scope Z_scope.
 
@@ -120,10 +122,10 @@ Lemma rinv_push s w x : bytes w -> 0 <= x < 256 -> RInv s w ->
   RInv (rc_push s x) (w ++ [x]) /\ rc_push_ck s x = Some (rc_push s x).
 Proof. intros Hb Hx (Hc & Ha & Hbb & Ea & Eb). rewrite M_val in *.
   unfold rc_push, rc_push_ck. rewrite M_val.
-  rewrite (w32_id (ra s + x)) by lia. rewrite (ck_some 32 (ra s + x)) by lia.
-  pose proof (Z.mod_pos_bound (ra s + x) 65521 ltac:(lia)) as Ha'.
-  rewrite (w32_id (rb s + _)) by lia. rewrite (ck_some 32 (rb s + _)) by lia.
   split; [|reflexivity].
+  rewrite (w32_id (ra s + x)) by lia.
+  pose proof (Z.mod_pos_bound (ra s + x) 65521 ltac:(lia)) as Ha'.
+  rewrite (w32_id (rb s + _)) by lia.
   unfold RInv; cbn [ra rb rcount]. rewrite M_val.
   pose proof (Z.mod_pos_bound (rb s + (ra s + x) mod 65521) 65521 ltac:(lia)).
   rewrite app_length, sumA_app, sumB_app; cbn [length].
